@@ -248,7 +248,8 @@ static void eb_mul_rtnaf_imp(eb_t r, const eb_t p, const bn_t k) {
 		l = sizeof(tnaf);
 		bn_rec_tnaf(tnaf, &l, k, u, RLC_FB_BITS, RLC_WIDTH);
 
-		eb_copy(r, p);
+		/* The inlined Frobenius below squares x and y only. */
+		eb_norm(r, p);
 		for (i = 0; i < l; i++) {
 			n = tnaf[i];
 			if (n > 0) {
@@ -702,6 +703,7 @@ void eb_mul_lodah(eb_t r, const eb_t p, const bn_t k) {
 	dv_t x1, z1, x2, z2, r1, r2, r3, r4, r5;
 	const dig_t *b;
 	bn_t t, n;
+	eb_t q;
 	size_t bits;
 
 	if (bn_is_zero(k) || eb_is_infty(p)) {
@@ -711,6 +713,7 @@ void eb_mul_lodah(eb_t r, const eb_t p, const bn_t k) {
 
 	bn_null(n);
 	bn_null(t);
+	eb_null(q);
 	dv_null(x1);
 	dv_null(z1);
 	dv_null(x2);
@@ -724,6 +727,7 @@ void eb_mul_lodah(eb_t r, const eb_t p, const bn_t k) {
 	RLC_TRY {
 		bn_new(n);
 		bn_new(t);
+		eb_new(q);
 		dv_new(x1);
 		dv_new(z1);
 		dv_new(x2);
@@ -734,7 +738,10 @@ void eb_mul_lodah(eb_t r, const eb_t p, const bn_t k) {
 		dv_new(r4);
 		dv_new(r5);
 
-		fb_sqr(z2, p->x);
+		/* The ladder works on the affine coordinates of the input. */
+		eb_norm(q, p);
+
+		fb_sqr(z2, q->x);
 		fb_sqr(x2, z2);
 		dv_zero(r5, 2 * RLC_FB_DIGS);
 
@@ -769,7 +776,7 @@ void eb_mul_lodah(eb_t r, const eb_t p, const bn_t k) {
 
 		/* Blind both points indebendently. */
 		fb_rand(z1);
-		fb_mul(x1, z1, p->x);
+		fb_mul(x1, z1, q->x);
 		fb_rand(r1);
 		fb_mul(z2, z2, r1);
 		fb_mul(x2, x2, r1);
@@ -783,7 +790,7 @@ void eb_mul_lodah(eb_t r, const eb_t p, const bn_t k) {
 			dv_swap_sec(x1, x2, RLC_FB_DIGS, j ^ 1);
 			dv_swap_sec(z1, z2, RLC_FB_DIGS, j ^ 1);
 			fb_sqr(z1, r3);
-			fb_muln_low(r1, z1, p->x);
+			fb_muln_low(r1, z1, q->x);
 			fb_addd_low(x1, r1, r4, 2 * RLC_FB_DIGS);
 			fb_rdcn_low(x1, x1);
 			fb_sqr(r1, z2);
@@ -821,17 +828,17 @@ void eb_mul_lodah(eb_t r, const eb_t p, const bn_t k) {
 			eb_set_infty(r);
 		} else {
 			if (fb_is_zero(z2)) {
-				fb_copy(r->x, p->x);
-				fb_add(r->y, p->x, p->y);
+				fb_copy(r->x, q->x);
+				fb_add(r->y, q->x, q->y);
 				fb_set_dig(r->z, 1);
 			} else {
 				/* r3 = z1 * z2. */
 				fb_mul(r3, z1, z2);
 				/* z1 = (x1 + x * z1). */
-				fb_mul(z1, z1, p->x);
+				fb_mul(z1, z1, q->x);
 				fb_add(z1, z1, x1);
 				/* z2 = x * z2. */
-				fb_mul(z2, z2, p->x);
+				fb_mul(z2, z2, q->x);
 				/* x1 = x1 * z2. */
 				fb_mul(x1, x1, z2);
 				/* z2 = (x2 + x * z2)(x1 + x * z1). */
@@ -839,24 +846,24 @@ void eb_mul_lodah(eb_t r, const eb_t p, const bn_t k) {
 				fb_mul(z2, z2, z1);
 
 				/* r4 = (x^2 + y) * z1 * z2 + (x2 + x * z2)(x1 + x * z1). */
-				fb_sqr(r4, p->x);
-				fb_add(r4, r4, p->y);
+				fb_sqr(r4, q->x);
+				fb_add(r4, r4, q->y);
 				fb_mul(r4, r4, r3);
 				fb_add(r4, r4, z2);
 
 				/* r3 = (z1 * z2 * x)^{-1}. */
-				fb_mul(r3, r3, p->x);
+				fb_mul(r3, r3, q->x);
 				fb_inv(r3, r3);
 				/* r4 = (x^2 + y) * z1 * z2 + (x2 + x * z2)(x1 + x * z1) * r3. */
 				fb_mul(r4, r4, r3);
 				/* x2 = x1 * x * z2 * (z1 * z2 * x)^{-1} = x1/z1. */
 				fb_mul(x2, x1, r3);
 				/* z2 = x + x1/z1. */
-				fb_add(z2, x2, p->x);
+				fb_add(z2, x2, q->x);
 
 				/* z2 = z2 * r4 + y. */
 				fb_mul(z2, z2, r4);
-				fb_add(z2, z2, p->y);
+				fb_add(z2, z2, q->y);
 
 				fb_copy(r->x, x2);
 				fb_copy(r->y, z2);
@@ -875,6 +882,7 @@ void eb_mul_lodah(eb_t r, const eb_t p, const bn_t k) {
 	RLC_FINALLY {
 		bn_free(n);
 		bn_free(t);
+		eb_free(q);
 		dv_free(x1);
 		dv_free(z1);
 		dv_free(x2);
@@ -1033,7 +1041,8 @@ void eb_mul_halve(eb_t r, const eb_t p, const bn_t k) {
 		l = bn_bits(n);
 		_k = naf + l - 1;
 
-		eb_copy(q, p);
+		/* Halving works on affine coordinates. */
+		eb_norm(q, p);
 		eb_curve_get_cof(n);
 
 		/* Test if curve has a cofactor bigger than 2. */
